@@ -85,18 +85,30 @@ type cmWorld struct {
 }
 
 func cmScenario(waiters int, ops []cmOp, cancel bool) vsync.Scenario {
+	return cmScenarioPre(waiters, nil, ops, cancel)
+}
+
+// cmScenarioPre: peers in pre are associated (and known) before any thread starts.
+func cmScenarioPre(waiters int, pre []peer.ID, ops []cmOp, cancel bool) vsync.Scenario {
 	var names []string
 	for _, o := range ops {
 		names = append(names, o.String())
 	}
-	name := fmt.Sprintf("waiters=%d ops=[%s] cancel=%v", waiters, strings.Join(names, " "), cancel)
-	seq := stateSeq(ops)
+	name := fmt.Sprintf("waiters=%d pre=%v ops=[%s] cancel=%v", waiters, pre, strings.Join(names, " "), cancel)
+	var preOps []cmOp
+	for _, p := range pre {
+		preOps = append(preOps, cmOp{"assoc", p, 0})
+	}
+	seq := stateSeq(append(preOps, ops...))[len(preOps):]
 	final := seq[len(seq)-1]
 	return vsync.Scenario{
 		Name: name,
 		Setup: func(s *vsync.Sched) vsync.World {
 			w := &cmWorld{m: NewConnectednessManager(), rets: make([][]cmRet, waiters), done: make([]bool, waiters), seq: seq}
 			ctx, cancelFn := context.WithCancel(context.Background())
+			for _, p := range pre {
+				w.m.AssociatePeer(g, p)
+			}
 			for i := 0; i < waiters; i++ {
 				i := i
 				th := vsync.GoNamed(fmt.Sprintf("W%d", i), func() {
@@ -322,6 +334,15 @@ func TestVerifC16CM(t *testing.T) {
 		if len(sq) <= 2 {
 			scs = append(scs, cmScenario(2, sq, false), cmScenario(1, sq, true))
 		}
+	}
+	// status updates only, on peers associated beforehand (no association racing the waiters)
+	C, D := ConnectednessTypeConnected, ConnectednessTypeDisconnected
+	for _, sq := range [][]cmOp{
+		{{"update", "p1", C}},
+		{{"update", "p1", C}, {"update", "p2", C}},
+		{{"update", "p1", C}, {"update", "p1", D}, {"update", "p1", ConnectednessTypeReconnecting}},
+	} {
+		scs = append(scs, cmScenarioPre(1, []peer.ID{"p1", "p2"}, sq, false), cmScenarioPre(2, []peer.ID{"p1", "p2"}, sq, false), cmScenarioPre(1, []peer.ID{"p1", "p2"}, sq, true))
 	}
 	vsync.ExploreScenarios(rep, "CM", scs, bound, 800, budget)
 }
